@@ -415,6 +415,8 @@ def C14(ctx):
     if not ctx.quick:
         model_check(ctx, "MC_DTreeAlgo", "MC_DTreeAlgo_4.cfg", "DTreeAlgo: 19 032 CNFs of <= 3 clauses over 4 variables x 24 orders", workers=12, timeout=1800)
         model_check(ctx, "MC_DTreeAlgo", "MC_DTreeAlgo_5.cfg", "DTreeAlgo: CNFs of <= 5 clauses (binary clauses, units, an empty clause) over 3 variables x 6 orders", workers=12, timeout=1800)
+    # proof (TLAPS, any number of variables and extensions): the two tables of a VarOrder (new + new_last as coded) stay mutually inverse
+    proof_check(ctx, "VarOrderProof", "VarOrder::new / new_last keep var_to_pos and pos_to_var mutually inverse bijections, fresh label last")
     n = 4 if ctx.quick else 30 * TH
     record_and_validate(ctx, [("orders_%d" % i, ["record", "orders", "--seed", ctx.seed * 1000 + i, "--segments", 80 if ctx.quick else 150,
                                                  "--nmax", 4 + (i % 3)]) for i in range(n)], "TraceOrders", "TraceOrders.cfg")
